@@ -114,6 +114,16 @@ def rule_lease_drain(ctx, rule):
                 if len(sends) != 1:
                     ok, detail = False, 'a request taken from the hold queue is put into the send queue %d times' % len(
                         sends)
+        # the release is atomic: once the new lease is visible, the held requests go out before any other task can
+        # make a request - send_request() only asks the lease, it does not look whether older requests still wait
+        installed = [e for e in p.events if e.kind == 'store' and e.data['target'][0] == 'attr' and
+                     e.data['target'][2] == '_requester_lease']
+        if installed:
+            susp = [e for e in p.events if e.kind in ('await', 'yield') and e.seq > installed[0].seq]
+            if susp:
+                ok, detail = False, ('handle_lease suspends after the new lease has been installed: a request made by '
+                                     'another task meanwhile is sent at once, ahead of the requests still held, and '
+                                     'uses up their allowance')
     if n_deq == 0:
         ok, detail = False, 'no path releases a held request: requests held while no lease was available are never sent'
     rep.add(rule, 'RSocketBase.handle_lease / held requests released while allowed', f, ok,
